@@ -1024,7 +1024,7 @@ MODELS = {
     "C13": {"quick": [_CRASH], "thorough": [_CRASH_T, _FAULT_T]},
     "C14": {"quick": [_CRASH], "thorough": [_CRASH_T]},
     "C07": {"quick": [_CRASH], "thorough": [_CRASH_T]},
-    "C09": {"quick": [_CRASH], "thorough": [_CRASH]},
+    "C09": {"quick": [("MC_Conserve.tla", "MC_Conserve_validate.cfg", 1800)], "thorough": [("MC_Conserve.tla", "MC_Conserve_validate.cfg", 1800), _CRASH]},
     "C10": {"quick": [_FAULT], "thorough": [_FAULT]},
 }
 
